@@ -24,6 +24,12 @@ fn main() {
     if let Err(p) = vcore::catch(chain::warm_up_fixtures) {
         mon.inconclusive(&format!("fixture warm-up panicked: {p}"));
     }
+    {
+        let mut rng = mon.rng("params-commitment-self-check", 0);
+        if let Err(e) = refval::self_check_params_commitment(&mut rng) {
+            mon.inconclusive(&e);
+        }
+    }
     let (shards, sizes) = match args.tier {
         Tier::Quick => (16, c03::Sizes { builder_families: 1, harness_families: 2, starts_per_family: 2, tamperings_per_start: 44 }),
         Tier::Thorough => (64, c03::Sizes { builder_families: 2, harness_families: 4, starts_per_family: 3, tamperings_per_start: 140 }),
@@ -32,9 +38,9 @@ fn main() {
     mon.finish(
         "honest chains = CertificateChainBuilder families (length, certificates/epoch, chaining method, signers/epoch, parameters, signed entity types varied) + harness-built families (2-8 epochs, 1-4 certificates/epoch, per-epoch signer sets AND parameters, genesis-epoch standard certificates, three linking disciplines, random genesis key); per family several start certificates; per start a class-stratified sample of: every single-field edit of every path certificate (hash untouched / recomputed / recomputed with everything pointing to it), adversary with its own signer sets and genesis key (one certificate re-signed, adversarial suffix with 4 junction patches, whole adversarial chains), previous_hash re-targeted to every other served certificate, drop / wrong answer / swap / self-loop / 2- and 3-cycles / truncation / genesis replacement, and two explicit client-cache histories. Every scenario goes through (i) mithril-common verify_certificate_chain and (ii) mithril-client verify_chain in one of 4 cache modes. A case is non-trivial when the independent reference validator rejects it (an acceptance would be a violation); distinct = (entry point/mode, class, difference to the honest answer table, query).",
         &[
-            "certificate hash, protocol-message digest, parameters hash and key decoding of the working tree are used as DEFINITIONS by the reference (C04 judges the hash)",
+            "certificate hash, protocol-message digest and key decoding of the working tree are used as DEFINITIONS by the reference (C04 judges the hash); the commitment to protocol parameters (k, m, phi_f at fixed-point precision) is computed by the reference itself and self-checked against the working tree's on honest parameters",
             "multi-signature validity = ProtocolMultiSignature::verify of the working tree (C01 judges it); genesis signature = ed25519_dalek permissive verification",
-            "'identical parameters' on a same-epoch link = equal as committed (k, m, fixed-point phi_f)",
+            "'identical parameters' on a same-epoch link = equal k, m and phi_f at the protocol's fixed-point precision (8 integer, 24 fractional bits); a phi_f outside that range equals nothing; the `fixed` crate is built without its debug assertions, as in production (an out-of-range conversion wraps instead of panicking)",
             "hash collisions, BLS / Ed25519 forgeries not attacked",
             "client histories: a link is resolved among the certificates the provider served for that hash in any run of the history",
         ],
